@@ -278,6 +278,25 @@ class LinOp:
         return f"<linop {self.name}>"
 
 
+class PyFunc:
+    """A callable supplied by the rule (models a user callback)."""
+
+    def __init__(self, fn, name="pyfunc"):
+        self.fn = fn
+        self.name = name
+
+
+class StoreLog:
+    """An array whose subscript stores are recorded: [(index value, stored value)]."""
+
+    def __init__(self, name):
+        self.name = name
+        self.stores = []
+
+    def __repr__(self):
+        return f"<array {self.name}>"
+
+
 class Opaque:
     def __init__(self, desc=""):
         self.desc = desc
@@ -562,6 +581,10 @@ class Interp:
             r = self.repo.resolve_dotted(dotted)
             if r is not None:
                 return r
+            mod, _, nm = dotted.rpartition(".")
+            src_mod = self.repo.modules.get(mod)
+            if src_mod is not None and nm in src_mod.assigns:
+                return self.eval(src_mod.assigns[nm], Frame(None, src_mod))
             return ModRef(dotted)
         if node.id in m.assigns:
             return self.eval(m.assigns[node.id], Frame(None, m))
@@ -871,6 +894,8 @@ class Interp:
             return self.call_ext(f.dotted, args, kwargs, node)
         if isinstance(f, ExtFunc):
             return self.call_ext(f.dotted, args, kwargs, node)
+        if isinstance(f, PyFunc):
+            return f.fn(*args, **kwargs)
         raise Unsupported(f"call of {f!r}" + (f" in {ast.unparse(node)}" if node else ""))
 
     def construct(self, c: ClassInfo, args, kwargs):
@@ -1030,6 +1055,12 @@ class Interp:
         if isinstance(v, Obj):
             return False
         raise Unsupported("isinstance on a non-object value")
+
+    def x_builtins_sum(self, a, k):
+        tot = self.const(0)
+        for v in a[0]:
+            tot = tot + self.as_term(v)
+        return tot
 
     def x_builtins_dict(self, a, k):
         d = dict(a[0]) if a else {}
@@ -1274,6 +1305,51 @@ class Interp:
                 self.assign(it.optional_vars, v, fr)
         self.exec_block(s.body, fr)
 
+    def s_For(self, s, fr):
+        it = self.eval(s.iter, fr)
+        if not isinstance(it, (list, tuple)):
+            raise Unsupported(f"for loop over {it!r}")
+        for v in it:
+            self.assign(s.target, v, fr)
+            self.exec_block(s.body, fr)
+        self.exec_block(s.orelse, fr)
+
+    def _comp(self, node, fr, elt_fn):
+        out = []
+
+        def rec(i, frame):
+            if i == len(node.generators):
+                out.append(elt_fn(frame))
+                return
+            g = node.generators[i]
+            it = self.eval(g.iter, frame)
+            if not isinstance(it, (list, tuple)):
+                raise Unsupported(f"comprehension over {it!r}")
+            for v in it:
+                f2 = Frame(frame.fi, frame.module, {}, parent=frame)
+                self.assign(g.target, v, f2)
+                if all(self.truth(self.eval(c, f2)) for c in g.ifs):
+                    rec(i + 1, f2)
+        rec(0, fr)
+        return out
+
+    def e_GeneratorExp(self, node, fr):
+        return self._comp(node, fr, lambda f: self.eval(node.elt, f))
+
+    e_ListComp = e_GeneratorExp
+
+    def e_DictComp(self, node, fr):
+        return dict(self._comp(node, fr, lambda f: (self.eval(node.key, f), self.eval(node.value, f))))
+
+    def e_Lambda(self, node, fr):
+        def call(*args, **kwargs):
+            env = {}
+            for p, v in zip(node.args.args, args):
+                env[p.arg] = v
+            env.update(kwargs)
+            return self.eval(node.body, Frame(fr.fi, fr.module, env, parent=fr))
+        return PyFunc(call, "lambda")
+
     def s_FunctionDef(self, s, fr):
         q = f"{fr.fi.qual}.{s.name}" if fr.fi else s.name
         fr.env[s.name] = fr.module.functions.get(q) or Opaque("nested def")
@@ -1325,6 +1401,9 @@ class Interp:
             return
         if isinstance(base, dict):
             base[self.eval(t.slice, fr)] = v
+            return
+        if isinstance(base, StoreLog):
+            base.stores.append((self.eval(t.slice, fr), v))
             return
         raise Unsupported(f"subscript store on {base!r}")
 
